@@ -357,8 +357,22 @@ def main():
 
 
 MANIFEST = {
-    "claimed": False,
-    "text": "",
-    "note": "",
+    "claimed": True,
+    "text": "Theorems (Coq, every schedule = every interleaving of the source tasks' operations with add_source, handled in "
+            "channel order; every selection/steering/vote function): what the controller holds for a source is a function of "
+            "that source's own operations in their order (C37_state_is_per_source); whenever the selection is computed its "
+            "candidates are exactly the latest snapshots of sources that are registered, last reported usable and have a snapshot "
+            "(C37_candidates), and the reported used_sources are among them (C37_used_sources_are_candidates); a message for an "
+            "unregistered id, in particular anything after the source's removal, changes nothing and emits nothing "
+            "(C37_ignored_when_unregistered, C37_after_removal); in every interleaving the snapshots stored for a source are its "
+            "script's measurements in production order (C37_per_source_order). Tie: the real TimeSyncControllerWrapper::run, "
+            "real source wrappers (incl. Drop) and real KalmanClockController with a recording clock on a current-thread tokio "
+            "runtime, random interleavings incl. ill-formed ones, compared per drain: clock calls, used_sources, controller map.",
+    "note": "Trusted: Coq kernel+vm_compute; hand-written model MsgLoop.v (snapshot float state abstracted to identity, filter "
+            "time and interval keys; selection via Model/Select.v, vote via Model/Combine.v in the correspondence instance); tokio "
+            "mpsc FIFO + controller mutex (a schedule is the order of sends); ClockIds never reused; the per-source Kalman filter "
+            "is scripted in the harness; thread interleavings inside one handler and the timer path (time_update) are not "
+            "modelled; schedules with the default steering thresholds are judged by the monitor only (steering rewrites the "
+            "float state). Print Assumptions: closed under the global context.",
     "design_ref": "DESIGN.md 3 C37",
 }
